@@ -31,7 +31,10 @@
    Mode = "tcp":       TcpDriver: router + receiver 0 (= _CPXReceiveThread, function CRTP) + user.
    LateRegister = TRUE lets receivers register while the stream is already being read (the
    router then drops packets of functions nobody asked for yet: DESIGN 3.1(10), outside C18).
-   Bug # "none" switches on named defects (vacuity guards for the invariants).  *)
+   Bug # "none" switches on named defects (vacuity guards for the invariants); uplink:
+   "tx_no_header" (CRTP header byte missing), "split_write" (length prefix and wire data are two
+   socket writes: another sender's write may come in between), "inplace_header" (send_packet
+   inserts the CRTP header into the caller's packet object: wrong from the second hand-over on).  *)
 EXTENDS Naturals, Sequences, FiniteSets, TLC
 
 CONSTANTS Packets,        \* set of packets the peer may send
